@@ -44,10 +44,10 @@ TRUSTED_EXTRA = ['translator harness/c08_py2lean.py (ast path enumeration of the
 
 KEYS = ['t', 'u', 'x']
 CLASSES8 = {'Scalar': (Scalar, ()), 'Vector3': (Vector3, (3,)), 'Pair': (Pair, (2,)), 'Matrix': (Matrix, (2, 2)),
-            'Boolean': (Boolean, ())}
+            'Boolean': (Boolean, ()), 'Matrix3': (Matrix3, (3, 3))}
 CONSTS = {'Scalar.ONE': ('Scalar', ()), 'Scalar.MASKED': ('Scalar', ()), 'Vector3.ZAXIS': ('Vector3', ()),
           'Vector3.ZERO_POS_VEL': ('Vector3', ()), 'Matrix.IDENTITY2': ('Matrix', ()), 'Pair.HALF': ('Pair', ()),
-          'Boolean.TRUE': ('Boolean', ())}
+          'Boolean.TRUE': ('Boolean', ()), 'Matrix3.IDENTITY': ('Matrix3', ())}
 
 
 def units_of(u):
@@ -112,6 +112,10 @@ def core_snap(q):
 
 def snap(q):
     return (core_snap(q), tuple((k, core_snap(d)) for k, d in sorted(q._derivs_.items())))
+
+def snap_repr(q):
+    return (snap(q), isinstance(q._mask_, np.ndarray),
+            tuple(isinstance(d._mask_, np.ndarray) for k, d in sorted(q._derivs_.items())))
 
 def arrays_of(q):
     res = [q._values_, q._mask_]
@@ -375,16 +379,17 @@ def request_of(R, op):
             return None
         return [['mk', n, mn, m, B(cls.UNITS_OK), B(cls.DERIVS_OK)]]
     if k == 'const':
+        # a constant of the library is an object that was built and frozen when the package was imported
         q = getattr(CLASSES8[op['name'].split('.')[0]][0], op['name'].split('.')[1])
         cls = type(q)
-        pre = []
-        m = 'T' if q._mask_ is True or (not isinstance(q._mask_, np.ndarray) and bool(q._mask_)) else 'F'
+        if q._derivs_ or isinstance(q._mask_, np.ndarray):
+            return None                 # (ZERO_POS_VEL: its derivative would need a variable of its own)
+        m = 'T' if bool(q._mask_) else 'F'
         if isinstance(q._values_, np.ndarray):
             main = ['mk', int(q._values_.size), 1, m, B(cls.UNITS_OK), B(cls.DERIVS_OK)]
         else:
             main = ['mks', m == 'T', B(cls.UNITS_OK), B(cls.DERIVS_OK)]
-        # a constant is an object built and frozen at import time; its derivatives likewise (ZERO_POS_VEL)
-        return 'const'
+        return [['seq', main, ['asro', len(V), True]]]
     q = V[op['v']] if 'v' in op and op['v'] < len(V) else None
     if q is None and k != 'write':
         return None
@@ -433,8 +438,12 @@ def request_of(R, op):
             dm, ds = mask_sel(d._mask_)
             dsel.append([KEYS.index(kk), dm, ds])
         return [['derive', op['v'], mode, vidx, midx, msc, op['rec'], dsel]]
-    if k in ('wod', 'neg'):
-        return [[k, op['v']]]
+    if k == 'wod':
+        return [['wod', op['v']]]
+    if k == 'neg':
+        # the class of the result: `-Boolean` is a Scalar (units and derivatives allowed), otherwise the operand's class
+        rc = Scalar if type(q).__name__ == 'Boolean' else type(q)
+        return [['neg', op['v'], B(rc.UNITS_OK), B(rc.DERIVS_OK)]]
     if k == 'clone':
         return [['clone', op['v'], op['rec']]]
     if k == 'copy':
@@ -506,7 +515,7 @@ def modelled(R, op):
     """is the (successful) behaviour of this op on the current real state inside the modelled fragment?"""
     k = op['op']
     if k == 'const':
-        return False
+        return True
     q = R.vars[op['v']] if 'v' in op and op['v'] < len(R.vars) else None
     if q is not None and q._derivs_ and any(p is not q and p._cache_.get('wod') is q for p in R.vars):
         return False        # a cached `wod` object that was given derivatives: its own cache points at itself
@@ -538,6 +547,10 @@ def modelled(R, op):
             d = R.vars[dd]
             if type(d) is not type(q) or d._shape_ != q._shape_ or not d.is_float() or d is q:
                 return False
+            old = q._derivs_.get(KEYS[kk])
+            if old is not None and core_snap(old) == core_snap(d) and not (old._values_ is d._values_ and old._mask_ is d._mask_):
+                return False    # replaced by an equal derivative held in other arrays: the model's stamps cannot see
+                                # that two different arrays have equal contents
         return True
     if k == 'setunits':
         return True
@@ -545,7 +558,53 @@ def modelled(R, op):
 
 
 # ------------------------------------------------------------------ running a history
+def _const_objects():
+    res = []
+    for n in CONSTS:
+        c = getattr(CLASSES8[n.split('.')[0]][0], n.split('.')[1])
+        res.append(c)
+        res.extend(c._derivs_.values())
+        w = c._cache_.get('wod')
+        if isinstance(w, Qube):
+            res.append(w)
+    return res
+
+class constants_restored:
+    """The shared constants of the library (Scalar.ONE, Vector3.ZAXIS, ...) take part in histories as themselves, and the
+    documented exceptions (override=True, insertion of a new derivative) do change them.  Whatever a history did to
+    their attributes is undone afterwards, so that the next history of this process meets them as they were at import.
+    (Their arrays are non-writeable; if a history manages to write into one, that is a violation reported on the spot,
+    and the bytes are restored too.)"""
+    def __enter__(self):
+        self.saved = []
+        for c in _const_objects():
+            d = dict(c.__dict__)
+            d['_derivs_'] = dict(c._derivs_)
+            d['_cache_'] = dict(c._cache_)
+            arrs = [(k, v.copy(), v.flags.writeable) for k, v in c.__dict__.items() if isinstance(v, np.ndarray)]
+            self.saved.append((c, d, arrs))
+        return self
+    def __exit__(self, *exc):
+        for c, d, arrs in self.saved:
+            c.__dict__.clear()
+            c.__dict__.update(d)
+            c._derivs_ = dict(d['_derivs_'])
+            c._cache_ = dict(d['_cache_'])
+            for k, v, w in arrs:
+                a = c.__dict__[k]
+                if not np.array_equal(a, v):
+                    a.flags.writeable = True
+                    a[...] = v
+                a.flags.writeable = w
+        return False
+
+
 def run_history(case, judge=False):
+    with constants_restored():
+        return _run_history(case, judge)
+
+
+def _run_history(case, judge=False):
     """returns (observations, failures).  observations mirror the driver's output; failures = [(signature, what)]"""
     R = Real()
     obs, fails = [], []
@@ -554,6 +613,7 @@ def run_history(case, judge=False):
     keep = []
     for t, op in enumerate(case['hist']):
         before = [snap(q) for q in R.vars]
+        before_r = [snap_repr(q) for q in R.vars]
         before_ro = [bool(q._readonly_) for q in R.vars]
         tgt = target_arrays(R, op)
         tgt_writable = [a for a in tgt if a.flags.writeable]
@@ -561,7 +621,11 @@ def run_history(case, judge=False):
         res = R.run(op)
         after = [snap(q) for q in R.vars]
         changed = [i < nv and before[i] != after[i] for i in range(len(R.vars))]
-        obs.append([res, [var_obs(q, changed[i]) for i, q in enumerate(R.vars)], [W(a) for a in R.users]])
+        # the change bit that is compared with the model also counts a change of the mask REPRESENTATION
+        # (a bool vs an array): the model's masks are stamps, it cannot tell that an array is all False
+        after_r = [snap_repr(q) for q in R.vars]
+        changed_r = [i < nv and before_r[i] != after_r[i] for i in range(len(R.vars))]
+        obs.append([res, [var_obs(q, changed_r[i]) for i, q in enumerate(R.vars)], [W(a) for a in R.users]])
         if not judge:
             continue
         k = op['op']
@@ -721,6 +785,11 @@ def neighbours(case):
 
 
 def finish(case):
+    with constants_restored():
+        return _finish(case)
+
+
+def _finish(case):
     """compute the request from a real run of the history (input-side facts only) and the bookkeeping fields"""
     R = Real()
     reqs, ok = [], True
@@ -734,7 +803,7 @@ def finish(case):
                     r = request_of(R, op)
                 except Exception:
                     r = None
-                if r is None or r == 'const':
+                if r is None:
                     ok = False
                 else:
                     reqs += r
@@ -918,6 +987,11 @@ def is_const(q):
 
 
 def random_history(rng, depth, prefix_list):
+    with constants_restored():
+        return _random_history(rng, depth, prefix_list)
+
+
+def _random_history(rng, depth, prefix_list):
     pname, pops = rng.choice(prefix_list)
     R = Real()
     hist = []
@@ -936,11 +1010,6 @@ def random_history(rng, depth, prefix_list):
                              {'op': 'pickle', 'v': 0}, {'op': 'copy', 'v': 0, 'rec': True, 'ro': True}])
         else:
             op = random_op(R, rng)
-            # the library's shared constants must stay as they are for the other cases of this process: no call that
-            # is allowed to change a read-only object (override=True, insertion of a new derivative) is aimed at them
-            if 'v' in op and op['v'] < len(R.vars) and is_const(R.vars[op['v']]) \
-                    and (op.get('ov') is True or op['op'] in ('insd', 'insds')):
-                op = {'op': 'reqw', 'v': op['v']}
         R.derivs_zeroed = getattr(R, 'derivs_zeroed', False)
         R.run(op); hist.append(op)
         if len(R.vars) > 14:
